@@ -22,6 +22,7 @@ type Spec struct {
 	NonTrivial func(ix *Index) (bool, []string)            // rule + classes
 	Run        func(c *Case) *Result                       // default RunCase
 	Custom     func(t *rapid.T, thorough bool, st *Stats) // fully custom property body (C11, ...)
+	Pre        func(t *rapid.T, thorough bool, st *Stats) bool // optional extra part: returns true when it handled this draw
 	Enumerate  func(spec *Spec, st *Stats, shard, nshards int, thorough bool, fail func(c *Case, vs []Violation, r *Result)) // exhaustive part, run before the generated part
 }
 
@@ -263,6 +264,9 @@ func TestProp(t *testing.T) {
 		return
 	}
 	rapid.Check(t, func(rt *rapid.T) {
+		if spec.Pre != nil && spec.Pre(rt, thorough, st) {
+			return
+		}
 		c := spec.Gen(rt, thorough)
 		runOne(rt, spec, c, st)
 	})
@@ -305,6 +309,20 @@ func TestReplay(t *testing.T) {
 		run := spec.Run
 		if run == nil {
 			run = RunCase
+		}
+		var raw map[string]any
+		json.Unmarshal(b, &raw)
+		if raw["part"] == "helpers" {
+			var hw struct {
+				HC *helperCase `json:"helper_case"`
+			}
+			json.Unmarshal(b, &hw)
+			if vs := runHelperCase(hw.HC); len(vs) > 0 {
+				t.Logf("replay %s: VIOLATION %s", f, vs[0])
+				os.WriteFile(filepath.Join(out, fmt.Sprintf("violation_replay_%d.json", i)), b, 0o644)
+				t.Fail()
+			}
+			continue
 		}
 		if spec.Custom != nil {
 			if replayCustom[prop] == nil {
